@@ -329,6 +329,15 @@ def handleGen (op : String) (j : Json) : Except String Json := do
         return Json.mkObj [("toks", match tabeam_fs_tab_write e [] with | .ok r => arrJ (r.map tokJ) | .error _ => Json.str "raised"), ("writes", natJ (tabeam_fs_tab_write_writes e []).length)]
       | "adp" => return Json.mkObj [("toks", arrJ ((adp_tab_write e []).map tokJ)), ("writes", natJ (adp_tab_write_writes e []).length)]
       | _ => throw s!"unknown tabulation {which}"
+  | "cli_species" =>
+    -- the species choice of potable's _do_tabulation: {"include": [..]|null, "exclude": [..]|null} -> [species list | null, exclude flag]
+    let optList := fun (k : String) => do
+      match j.getObjVal? k with
+      | .ok Json.null => pure (none : Option (List String))
+      | .ok v => do pure (some (← (← v.getArr?).toList.mapM fun x => x.getStr?))
+      | .error _ => pure none
+    let (sp, fl) := cli_species_choice () ⟨← optList "include", ← optList "exclude"⟩
+    return arrJ [match sp with | some l => arrJ (l.map Json.str) | none => Json.null, Json.bool fl]
   | "cli_operations" =>
     -- _create_override_tuple / _item_id / the dictionary part of _make_config_parser; absent option kinds are `null`
     let optLists := fun (k : String) => do
